@@ -206,7 +206,7 @@ def check_case(ctx, case):
     # ---- the same for a tree that came out of the parser (incl. lines another producer would write: an absolute TRIGGER without VALUE)
     from ..gen.model import emit
     try:
-        text = emit(model).replace("END:VCALENDAR", "BEGIN:VEVENT\r\nUID:verif-raw\r\nDTSTART:20240506T070809Z\r\nBEGIN:VALARM\r\nACTION:DISPLAY\r\n"
+        text = emit(model).replace("END:VCALENDAR", "BEGIN:VEVENT\r\nUID:verif-raw\r\nDTSTART:20240506T070809Z\r\nDTEND;TZID=UTC:20240506T080809\r\nRDATE;TZID=UTC:20240507T070809,20240508T070809\r\nBEGIN:VALARM\r\nACTION:DISPLAY\r\n"
                                    "TRIGGER:20240506T060809Z\r\nEND:VALARM\r\nEND:VEVENT\r\nEND:VCALENDAR", 1)
         parsed = icalendar.Calendar.from_ical(text)
     except ValueError:
@@ -233,6 +233,9 @@ def check_case(ctx, case):
         evm.add("dtstart" if "DTSTART" not in evm else "x-reassigned-too", v2)
         v1.dt = vals.py(("dt", 2024, 5, 6, 7, 8, 9, rng.choice(("zone:Asia/Tokyo", "UTC", None, "zone:America/New_York"))))
         v2.dt = vals.py(("dt", 2024, 5, 6, 7, 8, 9, rng.choice(("zone:Asia/Tokyo", "UTC", None, "zone:America/New_York"))))
+        lst = vDDDLists([vals.py(("dt", 2024, 5, 6, 7, 8, 9, None))])
+        evm.add("exdate" if "EXDATE" not in evm else "x-reassigned-list", lst)
+        lst.dts = [vDDDTypes(vals.py(("dt", 2024, 5, 6, 7, 8, 9, rng.choice(("zone:Asia/Tokyo", "zone:Europe/Berlin", "UTC"))))), vDDDTypes(vals.py(("dt", 2024, 6, 6, 7, 8, 9, "zone:Asia/Tokyo")))]
         m1 = mut.to_ical(sorted=flag)
         m2 = mut.to_ical(sorted=flag)
         if m1 != m2:
